@@ -141,10 +141,30 @@ class World:
                         ex.inflight_phys.discard(pos)
         if errors:
             n["poll_faults"] = n.get("poll_faults", 0) + len(errors)
-        stuck = deliverable_but_pending(ex)
+        stuck = deliverable_but_pending(ex) or self.owed_to_a_waiting_application(n)
         if stuck and not n.get("stuck"):
             n["stuck"] = (stuck, errors)
         return errors
+
+    def owed_to_a_waiting_application(self, n):
+        """The same question asked from the harness's own records (which application posted the request for a socket, for which
+        qubit id) instead of the executor's: a pending pair whose application is registered and suspended in its wait, whose
+        qubit id is free, and whose request is the only one outstanding on its socket must have been handed over."""
+        ex = n["ex"]
+        waiting = {a for a, _ in n["blocked"]}
+        for r in ex._pending_epr_responses:
+            info = n.get("req_info", {}).get(getattr(r, "purpose_id", None))
+            if info is None or not hasattr(r, "logical_qubit_id"):
+                continue
+            app, v = info
+            um = ex._qubit_unit_modules.get(app)
+            queue = ex._epr_recv_requests.get((r.remote_node_id, r.purpose_id)) or []
+            if um is None or app not in waiting or len(queue) != 1 or queue[0].pairs_left != 1:
+                continue
+            if 0 <= v < len(um) and um[v] is None:
+                return (f"the pair for socket {r.purpose_id}, requested by application {app} for its virtual qubit {v} "
+                        f"(memory position {r.logical_qubit_id}; the application is suspended in its wait, the qubit id is free)")
+        return None
 
     def resume(self, node):
         n = self.nodes[node]
@@ -312,6 +332,7 @@ def do_op(w: World, op):
         r = w.send(node, sub_msg(app, head + f"array 10 @5\narray 1 @6\nstore {v} @6[0]\nrecv_epr(9,{sock}) 6 5\nwait_all @5[0:10]\n" + tail), app, tag=(k, v))
         if r == "blocked":
             n["requests"].append((app, sock))
+            n.setdefault("req_info", {})[sock] = (app, v)
         elif sock in n["early"] and not any(getattr(x, "purpose_id", None) == sock for x in n["ex"]._pending_epr_responses):
             n["early"].remove(sock)        # the early pair was handed over
         return r
@@ -423,8 +444,9 @@ def run_history(ctx, ops):
             return f"operation {i} {op}: {_state['viol']}", None
         if n.get("stuck"):
             what, errors = n["stuck"]
-            return (f"operation {i} {op}: {what} can be handed over - its request is alive and its qubit id free - but stays pending: "
-                    f"every poll of the pending responses raises {sorted(set(errors))} for a response of another request first"), None
+            why = (f"every poll of the pending responses raises {sorted(set(errors))} for a response of another request first" if errors
+                   else "the executor does not attribute it to the request it was made for")
+            return (f"operation {i} {op}: {what} can be handed over - its request is alive and its qubit id free - but stays pending: {why}"), None
         if n.get("poll_faults"):
             ctx.count("hand_overs_that_failed_loudly", n.pop("poll_faults"))
         if isinstance(res, str) and res.startswith("fault-visible:"):
